@@ -105,7 +105,7 @@ class CuckooSystem(System):
         # transitions per configuration; BFS stops BEFORE a level it cannot finish, so "all sequences <= d" holds
         heavy = prop in ("C05", "C06", "C19")
         if tier == "quick":
-            budget = 6000 if heavy else 30000
+            budget = (3500 if prop == "C05" else 6000) if heavy else (15000 if prop == "C14" else 30000)
         else:
             budget = 100000 if heavy else 600000
         for cls in classes:
@@ -123,9 +123,15 @@ class CuckooSystem(System):
                                     dict(cls=cls, capacity=cap, bucket=bs, swaps=sw, auto=auto, alt=alt, nfp=nfp,
                                          depth=depth, budget=budget, cost=budget)
                                 )
-            # fingerprint 0 and the default hash
-            cfgs.append(dict(cls=cls, capacity=2, bucket=2, swaps=2, auto=True, alt="other", nfp=5, zero=True, depth=8,
-                             budget=budget, cost=budget))
+            # keys whose raw fingerprint is 0 (0 is the empty-slot marker of the export)
+            for cap, bs, auto, alt in ((2, 2, True, "other"), (3, 1, True, "other"), (3, 2, False, "other"), (1, 2, True, "other"),
+                                       (3, 1, True, "pair")):
+                cfgs.append(dict(cls=cls, capacity=cap, bucket=bs, swaps=2, auto=auto, alt=alt, nfp=5, zero=True, depth=8,
+                                 budget=budget, cost=budget))
+            # sized by error rate (fingerprint width derived from the rate and the bucket size, re-supplied on load)
+            for bs, er in ((1, 0.05), (2, 0.05), (3, 0.01)):
+                cfgs.append(dict(cls=cls, capacity=2, bucket=bs, swaps=2, auto=True, alt="other", nfp=5, by_rate=er, depth=8,
+                                 budget=budget, cost=budget))
             cfgs.append(dict(cls=cls, capacity=2, bucket=1, swaps=2, auto=True, alt="fnv", nfp=6, depth=8,
                              prefix=f"s{seed}k", budget=budget, cost=budget))
             cfgs.append(dict(cls=cls, capacity=3, bucket=2, swaps=3, auto=False, alt="fnv", nfp=8, depth=9,
@@ -136,6 +142,12 @@ class CuckooSystem(System):
         return cfgs
 
     def initial(self, cfg):
+        if cfg.get("by_rate"):
+            f = _cls(cfg).init_error_rate(
+                cfg["by_rate"], capacity=cfg["capacity"], bucket_size=cfg["bucket"], max_swaps=cfg["swaps"],
+                expansion_rate=2, auto_expand=cfg["auto"], hash_function=make_hash(cfg),
+            )
+            return State(f, {"fp": {}, "cap": cfg["capacity"]})
         f = _cls(cfg)(
             capacity=cfg["capacity"],
             bucket_size=cfg["bucket"],
@@ -245,11 +257,18 @@ class CuckooSystem(System):
                     if r[0] != "ok" or not r[1]:
                         bad("C03", "cuckoo.refused_add_keeps_keys", {"lost_key": repr(key), "fingerprint": fp, "ev": ev,
                                                                        "obs": obs, "check": r})
+                        if counting:
+                            bad("C08", "cuckoo.refused_add_keeps_counts", {"key": repr(key), "expected": pre.model["fp"][fp],
+                                                                            "check": r})
                         break
                     if counting and r[1] != pre.model["fp"][fp]:
                         bad("C08", "cuckoo.refused_add_keeps_counts", {"key": repr(key), "expected": pre.model["fp"][fp],
                                                                         "check": r})
                         break
+            if out:
+                return out
+            # the table a refused add leaves behind must still be well-formed and consistently counted
+            self._impl_invariants(cfg, f, props, bad, "after_refused_add")
             if out:
                 return out
             if canon(pre.impl) != canon(post.impl):
@@ -269,6 +288,26 @@ class CuckooSystem(System):
         if c1 != c0 and c1 != c0 * pre.impl.expansion_rate:
             bad("C15", "cuckoo.capacity_steps", {"before": c0, "after": c1})
         return out
+
+    def _impl_invariants(self, cfg, f, props, bad, where):
+        """oracles that need no reference model: C15 table invariants, C14 counter == what the table holds"""
+        counting = cfg["cls"] == "counting"
+        tab = None
+        if "C15" in props:
+            tab = self._invariants(cfg, f, bad, where)
+        if "C14" in props:
+            tab = tab or _table(f, counting)
+            if counting:
+                total = sum(c for b in tab for _, c in b)
+                bins = sum(len(b) for b in tab)
+                if f.elements_added != total:
+                    bad("C14", "ccuckoo.elements_added_is_sum_of_counts", {"where": where, "elements_added": f.elements_added, "table_sum": total})
+                if f.unique_elements != bins:
+                    bad("C14", "ccuckoo.unique_elements_is_bins", {"where": where, "unique": f.unique_elements, "bins": bins})
+            else:
+                stored = sum(len(b) for b in tab)
+                if f.elements_added != stored:
+                    bad("C14", "cuckoo.elements_added_is_stored", {"where": where, "elements_added": f.elements_added, "stored": stored})
 
     def _invariants(self, cfg, f, bad, where):
         counting = cfg["cls"] == "counting"
@@ -363,6 +402,7 @@ class CuckooSystem(System):
             "elements_added": f.elements_added,
             "unique": f.unique_elements if counting else None,
             "table": _table(f, counting),
+            "fingerprint_bits": f.fingerprint_size_bits,
             "checks": [call(f.check, k) for k, _ in keys] + [call(f.check, "absent-1"), call(f.check, b"absent-2")],
         }
 
@@ -380,13 +420,19 @@ class CuckooSystem(System):
         ref = self._observe(f, counting, keys)
         loaders = []
 
+        er = cfg.get("by_rate")
+
         def fix(g):
-            g.fingerprint_size = 1
+            if not er:
+                g.fingerprint_size = 1  # the fingerprint width is not stored: re-supplied the way the object was built
             g.expansion_rate = f.expansion_rate
             g.auto_expand = f.auto_expand
             return g
 
-        loaders.append(("frombytes", lambda: fix(cls.frombytes(blob, hash_function=hf))))
+        if er:
+            loaders.append(("frombytes", lambda: fix(cls.frombytes(blob, error_rate=er, hash_function=hf))))
+        else:
+            loaders.append(("frombytes", lambda: fix(cls.frombytes(blob, hash_function=hf))))
         if "C05" not in props:
             # C15 on loaded tables / C06 layout: the bytes channel suffices (C05 shows all channels carry the same payload)
             if "C15" in props:
@@ -409,8 +455,11 @@ class CuckooSystem(System):
                     fbytes = fh.read()
                 if fbytes != blob:
                     bad("C05", "cuckoo.channels_same_payload", {"file": fbytes.hex(), "bytes": blob.hex()})
-                loaders.append(("filepath", lambda: fix(cls(filepath=path, hash_function=hf))))
-                loaders.append(("load_error_rate", lambda: fix(cls.load_error_rate(0.25, path, hash_function=hf))))
+                if er:
+                    loaders.append(("load_error_rate", lambda: fix(cls.load_error_rate(er, path, hash_function=hf))))
+                else:
+                    loaders.append(("filepath", lambda: fix(cls(filepath=path, hash_function=hf))))
+                    loaders.append(("load_error_rate", lambda: fix(cls.load_error_rate(0.25, path, hash_function=hf))))
             bio = io.BytesIO()
             e = call(f.export, bio)
             if e[0] != "ok" or bio.getvalue() != blob:
@@ -460,9 +509,9 @@ class CuckooSystem(System):
         keys = _keys(cfg)
 
         def vec():
-            return (call(bytes, f), f.elements_added, f.capacity, f.bucket_size, f.max_swaps, _table(f, counting),
+            return (_table(f, counting), f.elements_added, f.capacity, f.bucket_size, f.max_swaps,
                     f.expansion_rate, f.auto_expand, f.fingerprint_size, f.error_rate,
-                    f.unique_elements if counting else None)
+                    f.unique_elements if counting else None, call(bytes, f))
 
         before = vec()
         for k, _ in keys[:4]:
@@ -480,6 +529,25 @@ class CuckooSystem(System):
         after = vec()
         if before != after:
             bad("C19", "cuckoo.queries_do_not_mutate", {"before": repr(before)[:300], "after": repr(after)[:300]})
+        # the same on a table obtained by loading an export (loaded buckets are arrays, not lists)
+        b = call(bytes, f)
+        if b[0] == "ok":
+            g = call(lambda: _cls(cfg).frombytes(b[1], hash_function=make_hash(cfg)))
+            if g[0] == "ok":
+                g = g[1]
+
+                def gvec():
+                    # the table is read BEFORE the export that is part of the vector (an export may be the mutator)
+                    return (_table(g, counting), g.elements_added, g.capacity, g.unique_elements if counting else None, call(bytes, g))
+
+                b0 = gvec()
+                call(bytes, g)
+                call(g.export, io.BytesIO())
+                call(str, g)
+                for k, _ in keys[:3]:
+                    call(g.check, k)
+                if gvec() != b0:
+                    bad("C19", "cuckoo.queries_do_not_mutate_loaded", {"before": repr(b0)[:300], "after": repr(gvec())[:300]})
 
     def check_initial(self, cfg, st, props):
         return self.check_state(cfg, st, ("init",), ("ok", None), st, props)
